@@ -79,6 +79,59 @@ CHECKS['C03'] = {
                     'reads of a handed-out node are detected by ASan poisoning (asan jobs) and by wild-pointer poisoning (plain jobs: a followed pointer faults, a compared pointer changes the sequence)'],
 }
 
+
+def seq_job(kind, name, n, siz, siz2=0, mem0=4, memcap=12, keys=3, san='', faults=0, deadline=100):
+    args = ['--n', n, '--siz', siz, '--siz2', siz2, '--mem0', mem0, '--memcap', memcap, '--keys', keys, '--faults', faults, '--deadline', deadline]
+    return {'name': name, 'build_name': '%s%s' % (kind, '-asan' if san else ''), 'harness': ['harness/seq.cpp'],
+            'repo_srcs': ['src/%s.c' % kind, 'src/a.c'], 'defs': ['-DSEQ_%s' % kind.upper()], 'san': san, 'args': args}
+
+
+def c04_jobs(tier):
+    if tier == 'quick':
+        return [seq_job('vec', 'vec-n5-siz1-3', 5, 1, 3),
+                seq_job('vec', 'vec-n4-siz8-12', 4, 8, 12),
+                seq_job('vec', 'vec-n4-siz0', 4, 0),
+                seq_job('vec', 'vec-n9-siz3-2keys', 9, 3, keys=2, memcap=16),
+                seq_job('vec', 'vec-asan-n3-siz1-3', 3, 1, 3, san='asan'),
+                seq_job('vec', 'vec-asan-n3-siz12', 3, 12, san='asan'),
+                seq_job('buf', 'buf-n4-siz1-3', 4, 1, 3, mem0=4, memcap=6),
+                seq_job('buf', 'buf-n4-siz8-12', 4, 8, 12, mem0=5, memcap=6),
+                seq_job('buf', 'buf-n3-siz0', 3, 0, mem0=3, memcap=4),
+                seq_job('buf', 'buf-n8-siz2-2keys', 8, 2, mem0=8, memcap=9, keys=2),
+                seq_job('buf', 'buf-asan-n3-siz1-3', 3, 1, 3, mem0=3, memcap=4, san='asan'),
+                seq_job('buf', 'buf-asan-n3-siz12', 3, 12, mem0=3, memcap=4, san='asan')]
+    D = 2400
+    return [seq_job('vec', 'vec-n7-siz1-3', 7, 1, 3, deadline=D),
+            seq_job('vec', 'vec-n6-siz8-12', 6, 8, 12, deadline=D),
+            seq_job('vec', 'vec-n6-siz0', 6, 0, deadline=D),
+            seq_job('vec', 'vec-n10-siz3-2keys', 10, 3, keys=2, memcap=16, deadline=D),
+            seq_job('vec', 'vec-n9-siz12-2keys', 9, 12, keys=2, memcap=16, deadline=D),
+            seq_job('vec', 'vec-asan-n5-siz1-3', 5, 1, 3, san='asan', deadline=D),
+            seq_job('vec', 'vec-asan-n9-siz3-2keys', 9, 3, keys=2, memcap=16, san='asan', deadline=D),
+            seq_job('buf', 'buf-n6-siz1-3', 6, 1, 3, mem0=6, memcap=8, deadline=D),
+            seq_job('buf', 'buf-n6-siz8-12', 6, 8, 12, mem0=6, memcap=8, deadline=D),
+            seq_job('buf', 'buf-n5-siz0', 5, 0, mem0=5, memcap=6, deadline=D),
+            seq_job('buf', 'buf-n9-siz2-2keys', 9, 2, mem0=9, memcap=10, keys=2, deadline=D),
+            seq_job('buf', 'buf-asan-n5-siz1-3', 5, 1, 3, mem0=5, memcap=6, san='asan', deadline=D),
+            seq_job('buf', 'buf-asan-n8-siz2-2keys', 8, 2, mem0=8, memcap=9, keys=2, san='asan', deadline=D)]
+
+
+CHECKS['C04'] = {
+    'title': 'vector and fixed buffer as an indexable sequence', 'level': 'model_checking', 'jobs': c04_jobs,
+    'rule': ('explicit-state BFS to a fixpoint over the real src/vec.c / src/buf.c: a state is (element size, capacity, key sequence); from EVERY reachable state EVERY '
+             'operation of the menu is executed on a fresh real object in lock-step with an abstract sequence: push_back/push_fore/push_sort of each key, insert at every index '
+             '0..num+1 and SIZE_MAX, pull_back/pull_fore, remove at every index 0..num and SIZE_MAX, store of blocks of 0/1/2 elements at {0,num/2,num,SIZE_MAX} with and without copy callback, '
+             'erase(idx,cnt) for idx in 0..num+1,SIZE_MAX and cnt in {0,1,2,num,SIZE_MAX} with and without destructor, setn, setm, setz (element-size change), sort, sort_fore, sort_back, search, swap, '
+             'and all accessors for every index -num-1..mem+1. Contents are compared byte for byte, returned pointers must lie in owned storage, allocator ledger/canaries checked after every call. '
+             'distinct_nontrivial = distinct reachable states; every new state is rebuilt through constructor + public calls only and must encode identically.'),
+    'assumptions': ['the comparison callback looks at the key nibble only; elements with equal keys are distinguishable by the harness but equivalent to the code',
+                    'bound: at most N elements (per job), 3-key alphabet (2 keys in the larger jobs), capacity growth via setm offered below memcap',
+                    'store is driven with counts that match the supplied block (0,1,2); a count larger than the block is a client error, not explored'],
+    'design_ref': '§4.C04', 'technique': 'explicit-state BFS to a fixpoint over the real vec.c/buf.c against an abstract sequence model, canary allocator + ASan, API-replay conformance of every state',
+    'level_text': 'Every operation of the sequence API, with every index and count class of the statement (in range, boundary, beyond the end, SIZE_MAX) and both capacity states, is executed from every reachable state with at most N elements (5-9 quick, 6-10 thorough; element sizes 0,1,3,8,12 with size changes) and compared byte for byte with an abstract sequence; fixpoint, so histories of any length.',
+    'level_note': 'Trusted: gcc/clang+ASan, the canary allocator shim installed through a_alloc, host qsort/bsearch. Not covered: more than N elements, element sizes other than those listed.',
+}
+
 # ---------------------------------------------------------------- manifest texts
 CHECKS['C01'].update({
     'design_ref': '§4.C01', 'technique': 'explicit-state BFS to a fixpoint over the real src/avl.c (size-bounded, unbounded history length), lock-step reference set, API-replay conformance of every state',
